@@ -77,9 +77,10 @@ Example C01_binary_example :
   Some [([(1, 20); (2, 31); (3, 40)]%N, 20); ([(1, 20); (2, 32); (3, 40)]%N, 50)].
 Proof. cbv zeta. split; vm_compute; reflexivity. Qed.
 
-(* ... and for arbitrary trees of vector/vector binary operators and per-sample
+(* ... and for arbitrary trees of vector/vector binary operators, per-sample
    operators (instant functions, unary minus, arithmetic and comparisons with a
-   literal) over selectors, e.g. abs(a + on (x) b) * ignoring (y) group_left (c > 2): every node's stream is a
+   literal) and count aggregations over selectors, e.g.
+   count by (z) (abs(a + on (x) b) * ignoring (y) group_left (c > 2)): every node's stream is a
    function of the grid timestamp; its sample IDs are distinct and name series
    of the node; at every timestamp at which the reference evaluation of the
    node succeeds, the node's labelled samples are a permutation of the
